@@ -50,10 +50,16 @@ theorem code_facts :
     (validate codeTable {} W.dEncHeader = true ∧ specVerdict {} W.dEncHeader = .reject ∧
       anyNode (exclEncNode codeTable {}) W.dEncHeader = true ∧ anyNode (exclBelow knownUncovered {}) W.dEncHeader = true ∧
       validate codeTable {} W.dEncMasked = true ∧ specVerdict {} W.dEncMasked = .reject ∧
-      anyNode (exclEncNode codeTable {}) W.dEncMasked = true) ∧
+      anyNode (exclEncNode codeTable {}) W.dEncMasked = true) := by
+  decide +kernel
+
+/-- the closed facts about the former witnesses (repaired defects) and the non-vacuity documents -/
+theorem code_facts_regress :
     -- 8
     (validate codeTable {} W.dExternal = true ∧ specVerdict {} W.dExternal = .accept ∧
-      validate codeTable { exDisabled := true } W.dExternal = true) ∧
+      validate codeTable { exDisabled := true } W.dExternal = true ∧
+      validate codeTable {} W.dExternalBad = false ∧ specVerdict {} W.dExternalBad = .reject ∧
+      validate codeTable { exDisabled := true } W.dExternalBad = true) ∧
     -- 9
     (validate codeTable {} W.d28a = false ∧ specVerdict {} W.d28a = .reject ∧
       anyNode (exclNode codeTable knownUncovered {}) W.d28a = false) ∧
@@ -353,20 +359,23 @@ theorem witness_encoding_header_error_dropped :
     validate codeTable {} W.dEncHeader = true ∧ specVerdict {} W.dEncHeader = .reject ∧
       anyNode (exclEncNode codeTable {}) W.dEncHeader = true ∧ anyNode (exclBelow knownUncovered {}) W.dEncHeader = true ∧
       validate codeTable {} W.dEncMasked = true ∧ specVerdict {} W.dEncMasked = .reject ∧
-      anyNode (exclEncNode codeTable {}) W.dEncMasked = true := code_facts.2.2.2.2.2.2.1
+      anyNode (exclEncNode codeTable {}) W.dEncMasked = true := code_facts.2.2.2.2.2.2
 
 /-! ### Regression theorems: former witnesses of repaired defects (model = specification on them; the inputs
 stay in corpus/C04, so a regression of the code is reported with that input) -/
 
-/-- 9d56ffd: an example that gives only `externalValue` under a string schema is accepted -/
+/-- 9d56ffd: an example that gives only `externalValue` under a string schema is accepted; an example next to
+it whose value violates the schema is still rejected (and accepted once examples validation is switched off) -/
 theorem regression_external_example :
     validate codeTable {} W.dExternal = true ∧ specVerdict {} W.dExternal = .accept ∧
-      validate codeTable { exDisabled := true } W.dExternal = true := code_facts.2.2.2.2.2.2.2.1
+      validate codeTable { exDisabled := true } W.dExternal = true ∧
+      validate codeTable {} W.dExternalBad = false ∧ specVerdict {} W.dExternalBad = .reject ∧
+      validate codeTable { exDisabled := true } W.dExternalBad = true := code_facts_regress.1
 
 /-- 78418b3: a header object with `"bogus": 1` is rejected -/
 theorem regression_header_extra :
     validate codeTable {} W.d28a = false ∧ specVerdict {} W.d28a = .reject ∧
-      anyNode (exclNode codeTable knownUncovered {}) W.d28a = false := code_facts.2.2.2.2.2.2.2.2.1
+      anyNode (exclNode codeTable knownUncovered {}) W.d28a = false := code_facts_regress.2.1
 
 /-- 3a27745: a header whose example violates its schema is rejected, accepted once examples validation is
 switched off; the matching example is accepted -/
@@ -376,7 +385,7 @@ theorem regression_header_example :
       validate codeTable { exDisabled := true } W.dHeaderExample = true ∧
       specVerdict { exDisabled := true } W.dHeaderExample = .accept ∧
       validate codeTable {} W.dHeaderExampleOK = true ∧ specVerdict {} W.dHeaderExampleOK = .accept :=
-  code_facts.2.2.2.2.2.2.2.2.2.1
+  code_facts_regress.2.2.1
 
 /-- 78418b3: an encoding object with an unsupported style, or with an extra field, is rejected; a supported
 style with an extension field is accepted -/
@@ -386,20 +395,20 @@ theorem regression_encoding_validated :
       validate codeTable {} W.dEncExtra = false ∧ specVerdict {} W.dEncExtra = .reject ∧
       anyNode (exclNode codeTable knownUncovered {}) W.dEncExtra = false ∧
       validate codeTable {} W.dEncOK = true ∧ specVerdict {} W.dEncOK = .accept :=
-  code_facts.2.2.2.2.2.2.2.2.2.2.1
+  code_facts_regress.2.2.2.1
 
 /-- 3a27745: `example` next to `examples` in a header object is rejected, whatever the examples option -/
 theorem regression_header_example_and_examples :
     validate codeTable {} W.dHeaderBoth = false ∧ specVerdict {} W.dHeaderBoth = .reject ∧
       validate codeTable { exDisabled := true } W.dHeaderBoth = false ∧
       specVerdict { exDisabled := true } W.dHeaderBoth = .reject :=
-  code_facts.2.2.2.2.2.2.2.2.2.2.2.1
+  code_facts_regress.2.2.2.2.1
 
 /-! ### Non-vacuity -/
 
 /-- a conforming document outside every exclusion class: accepted, by model and specification -/
 example : conformingB {} W.good = true ∧ anyNode (exclNode codeTable knownUncovered {}) W.good = false ∧
-    validate codeTable {} W.good = true := code_facts.2.2.2.2.2.2.2.2.2.2.2.2.1
+    validate codeTable {} W.good = true := code_facts_regress.2.2.2.2.2.1
 
 /-- a violation outside the exclusion classes, three containers deep (a default that violates its schema,
 under `items` of a schema without `type`): rejected under the default options, accepted once the option
@@ -409,17 +418,17 @@ example : specVerdict {} W.dDeepDefault = .reject ∧ anyNode (exclNode codeTabl
     validate codeTable { defDisabled := true } W.dDeepDefault = true ∧
     validate codeTable { exDisabled := true } W.dDeepDefault = false ∧
     validate codeTable { patDisabled := true, fmtEnabled := true, extProhibited := true } W.dDeepDefault = false :=
-  code_facts.2.2.2.2.2.2.2.2.2.2.2.2.2.1
+  code_facts_regress.2.2.2.2.2.2.1
 
 /-- the template rule does fire when the counts differ, and the benign twin of the header extra field passes -/
 example : validate codeTable {} W.dMissing = false ∧ specVerdict {} W.dMissing = .reject ∧
     validate codeTable {} W.d28aOK = true ∧ specVerdict {} W.d28aOK = .accept :=
-  code_facts.2.2.2.2.2.2.2.2.2.2.2.2.2.2.1
+  code_facts_regress.2.2.2.2.2.2.2.1
 
 /-- the template rule is applied to every operation of a path item separately: `get` declares the
 variable, `put` does not — rejected, outside every exclusion class -/
 example : validate codeTable {} W.dSecondOp = false ∧ specVerdict {} W.dSecondOp = .reject ∧
     anyNode (exclNode codeTable knownUncovered {}) W.dSecondOp = false :=
-  code_facts.2.2.2.2.2.2.2.2.2.2.2.2.2.2.2
+  code_facts_regress.2.2.2.2.2.2.2.2
 
 end KinModel.DocValidate
